@@ -1059,11 +1059,24 @@ func (env *Zlisp) LexicalLookupSymbol(sym *SexpSymbol, setVal *Sexp) (Sexp, erro
 		break
 	}
 
+	// A Go builtin has no closure of its own: a symbol it resolves on behalf
+	// of its caller (a dot-symbol operand, the hash argument of a field
+	// accessor) is looked up in the closure of the script function that
+	// called it.
+	curfunc := env.curfunc
+	if curfunc.user {
+		if elem, err := env.addrstack.Get(0); err == nil {
+			if addr, ok := elem.(Address); ok && addr.function != nil && !addr.function.user {
+				curfunc = addr.function
+			}
+		}
+	}
+
 	// check the parent function lexical captured scopes, if parent available.
-	if env.curfunc.parent != nil {
+	if curfunc.parent != nil {
 		//P("checking non-nil parent...")
 		//exp, err, whichScope := env.curfunc.parent.ClosingLookupSymbol(sym, setVal)
-		exp, err, whichScope := env.curfunc.LookupSymbolInParentChainOfClosures(sym, setVal, env)
+		exp, err, whichScope := curfunc.LookupSymbolInParentChainOfClosures(sym, setVal, env)
 		switch err {
 		case nil:
 			//P("LookupSymbolUntilFunction('%s') found in curfunc.parent.ClosingLookupSymbol() scope '%s'\n", sym.name, whichScope.Name)
@@ -1076,7 +1089,7 @@ func (env *Zlisp) LexicalLookupSymbol(sym *SexpSymbol, setVal *Sexp) (Sexp, erro
 
 		//fmt.Printf(" *** env.curfunc has closure of: %s\n", ClosureToString(env.curfunc, env))
 		//exp, err, scope = env.curfunc.ClosingLookupSymbol(sym, setVal)
-		exp, err, scope = env.curfunc.ClosingLookupSymbolUntilFunc(sym, setVal, 1, false)
+		exp, err, scope = curfunc.ClosingLookupSymbolUntilFunc(sym, setVal, 1, false)
 		switch err {
 		case nil:
 			//P("LexicalLookupSymbol('%s') found in env.curfunc.ClosingLookupSymbolUnfilFunc(1, false) in scope '%s'\n", sym.name, scope.Name)
